@@ -8,6 +8,7 @@ from ..rules import common
 from ..window import Window, lin, form, show_form, guard_ops, TOP, is_top
 
 TITLE = "The XML parser accepts only balanced documents and reports them faithfully"
+TECHNIQUE = 'interprocedural cursor-window abstract interpretation with inlined accessor predicates, validated-position analysis and counted-loop summaries; dominance / who-may-write rules for the element stack; table extraction for entities; exact evaluation of the loop-free UTF-8 encoder over all code points'
 XP = "iora::parsers::xml::Parser"
 XF = "iora/parsers/xml.hpp"
 INPUT, CURF = XP + "::_input", XP + "::_cur"
